@@ -56,6 +56,32 @@ impl TextSize {
 //@@ END
 }
 
+//@@ EXTRACT file=vendored/src/text_size/range.rs anchor=<<<pub struct TextRange {>>>
+//@@ KEEPSIG
+//@@ END
+impl Copy for TextRange {}
+impl Clone for TextRange {
+    fn clone(&self) -> (r: Self) ensures r == *self { *self }
+}
+
+impl TextRange {
+//@@ EXTRACT file=vendored/src/text_size/range.rs anchor=<<<pub const fn new(start: TextSize, end: TextSize) -> TextRange {>>>
+//@@ SIG
+    const fn new(start: TextSize, end: TextSize) -> (r: TextRange)
+        requires start.raw <= end.raw, // R8: the run-time assert! is the precondition
+        ensures r.start == start, r.end == end,
+//@@ ENDSIG
+//@@ SUB 1 <<<assert!(start.raw <= end.raw);>>> ==> <<<assert(start.raw <= end.raw);>>>
+//@@ END
+
+//@@ EXTRACT file=vendored/src/text_size/range.rs anchor=<<<pub fn empty(offset: TextSize) -> TextRange {>>>
+//@@ SIG
+    fn empty(offset: TextSize) -> (r: TextRange)
+        ensures r.start == offset, r.end == offset,
+//@@ ENDSIG
+//@@ END
+}
+
 /// Model of OneIndexed (a NonZeroU32 wrapper; NonZeroU32 is outside the Verus subset).  The
 /// contracts assumed here are the ones PROVED by Kani for all u32 on the real type
 /// (obligations C15.k.one_indexed_*).
@@ -295,6 +321,29 @@ content[range].chars().count().try_into().unwrap()
             r.raw as int == line_start_spec(self@, contents@, line.v as int),
 //@@ ENDSIG
 //@@ SUB 1 <<<contents.text_len()>>> ==> <<<TextSize::new(contents.len() as u32)>>>
+//@@ END
+
+//@@ EXTRACT file=vendored/src/source_location/line_index.rs anchor=<<<pub(crate) fn line_range(&self, line: OneIndexed, contents: &str) -> TextRange {>>>
+//@@ SIGSUB <<<contents: &str>>> ==> <<<contents: &[u8]>>>
+//@@ SIG
+    fn line_range(&self, line: OneIndexed, contents: &[u8]) -> (r: TextRange)
+        requires
+            index_wf(self@, contents@),
+            line.v >= 1, line.v - 1 <= self@.len(),
+            contents@.len() <= u32::MAX, self@.len() < u32::MAX - 1,
+        ensures
+            // [start of the line, start of the next line): the line with its terminator; empty at the
+            // end of the text for the position after the last line
+            r.start.raw as int == line_start_spec(self@, contents@, line.v - 1),
+            r.end.raw as int == line_start_spec(self@, contents@, line.v as int),
+            r.start.raw <= r.end.raw,
+//@@ ENDSIG
+//@@ SUB 1 <<<TextRange::empty(contents.text_len())>>> ==> <<<TextRange::empty(TextSize::new(contents.len() as u32))>>>
+//@@ BEFORE 1 <<<TextRange::new(>>>
+            proof {
+                theorem_lines_partition(self@, contents@);
+            }
+//@@ ENDBEFORE
 //@@ END
 
 } // impl LineIndex
